@@ -40,9 +40,9 @@ def c06(chk):
     v, st = engine.run(chk, "peng", {"mode": "c06", "n": 2}, "2-nodes", "TraceP", TRACE_CONSTS, C06_TRACE,
                        "peng-trace", what="the live cluster", strip=("mode", "n", "sample", "churn"))
     ops = dict(st["by_op"])
-    n3 = {"mode": "c06", "n": 3, "sample": 250 if quick else 0}
+    n3 = {"mode": "c06", "n": 3, "sample": 250 if quick else 0, "goneSample": 0 if quick else 4000}
     v, st = engine.run(chk, "peng", n3, "3-nodes", "TraceP", TRACE_CONSTS, C06_TRACE, "peng-trace",
-                       what="the live cluster", strip=("mode", "n", "sample", "churn"))
+                       what="the live cluster", strip=("mode", "n", "sample", "churn", "goneSample"))
     for k, n in st["by_op"].items():
         ops[k] = ops.get(k, 0) + n
     chk.notes["executed_calls_by_action"] = ops
